@@ -1,0 +1,9 @@
+//go:build verif
+
+package ike
+
+import "github.com/free5gc/ike/internal/verifhook"
+
+// VerifSetHook installs the verification callback (only in builds with the
+// "verif" tag; modules outside this one cannot import internal/verifhook).
+func VerifSetHook(f func(site string, n int)) { verifhook.Set(f) }
